@@ -85,7 +85,7 @@ def model_cases(draw):
                 "doas": draw(st.booleans()),
                 "scale": draw(st.booleans()),
                 "mc_scale": draw(st.booleans()),
-                "nt": draw(st.integers(8, 16)),
+                "nt": draw(st.integers(24, 36)),
             }
         )
     constraints, relations, penalties = [], [], []
